@@ -148,6 +148,16 @@ pub fn replay(cases: &str, verdicts: &str, table: &str) {
                 let refc: f64 = p["cdf"].as_str().unwrap().parse().unwrap();
                 let gc = guard(|| n.cdf(x));
                 v.check(gc.map(|gc| (gc - refc).abs() <= 1.5e-7).unwrap_or(false), kind, "cdf", &pid, json!(gc.map(fj)));
+                // location-scale law in other units: N(s mu, s sigma) at s x has the same cdf and 1/s times the density (s = 2^-60, 2^40)
+                for e in [-60i32, 40] {
+                    let f = 2f64.powi(e);
+                    let ns = Normal::new(params[0] * f, params[1] * f);
+                    let gcs = guard(|| ns.cdf(x * f));
+                    let gps = guard(|| ns.pdf(x * f) * f);
+                    let ok = gcs.map(|g| (g - refc).abs() <= 1.5e-7).unwrap_or(false)
+                        && gps.map(|g| if refp < 1e-290 { g <= 1e-280 } else { ((g - refp) / refp).abs() <= 1e-9 }).unwrap_or(false);
+                    v.check(ok, kind, if e < 0 { "cdf / pdf tiny-units" } else { "cdf / pdf huge-units" }, &pid, json!({"cdf": gcs.map(fj), "pdf_times_s": gps.map(fj)}));
+                }
             }
         }
         // total mass and the first two moments of the implementation's own density / mass function
